@@ -76,6 +76,20 @@ let assigns_field (f : string) : c12_assign list =
     | [p; v] -> (List.map str_field (String.split_on_char '/' p), str_field v)
     | _ -> failwith "bad assignment") (list_field f)
 
+let items_field (f : string) : c12_sline list =
+  List.map (fun it ->
+    let kind = it.[0] and fs = Array.of_list (List.map str_field (String.split_on_char '/' (String.sub it 2 (String.length it - 2)))) in
+    let ch s = match s with [c] -> c | _ -> failwith "quote field" in
+    match kind with
+    | 'B' -> C12SBlank fs.(0)
+    | 'C' -> C12SComment (fs.(0), fs.(1))
+    | 'H' -> C12SHeader (fs.(0), fs.(1), fs.(2), fs.(3), fs.(4))
+    | 'A' -> C12SAssign (fs.(0), fs.(1), fs.(2), fs.(3), fs.(4), fs.(5), fs.(6))
+    | 'Q' -> C12SQuoted1 (fs.(0), fs.(1), fs.(2), fs.(3), ch fs.(4), fs.(5), fs.(6), fs.(7))
+    | 'N' -> C12SQuotedN (fs.(0), fs.(1), fs.(2), fs.(3), ch fs.(4), fs.(5),
+                          Array.to_list (Array.sub fs 8 (Array.length fs - 8)), fs.(6), fs.(7))
+    | _ -> failwith "bad item") (list_field f)
+
 let ob = function Some true -> "1" | Some false -> "0" | None -> "E"
 let query (t : c12_tree) (k : c12_str) : string =
   let p = c12_path k in
@@ -160,18 +174,57 @@ let do_case (line : string) : string =
         let d = c12_spec_merge (assigns_field t.(5)) da ow in
         if c12_spec_wf d then "ok " ^ spec_dump d [] else "?"
       end else "?" in
-    Printf.sprintf "%s | %s ub=%d" m spec (if r.c12_ir_ub then 1 else 0)
+    (* the document as items of the dialect of theorem C12_roundtrip: is the generated document inside the
+       dialect (c12_sline_ok, and its bytes are the rendering of the items), and does the theorem's right-hand
+       side (store the written assignment list) give the model's result *)
+    let dialect =
+      if Array.length t >= 8 then begin
+        let ls = items_field t.(7) in
+        let okd = List.for_all c12_sline_ok ls in
+        let same = c12_eqs (c12_join_lines (List.concat_map c12_render_sline ls)) (str_field t.(3)) in
+        let (t2, s2) = c12_store_all (c12_sdoc_assigns ls []) pre [] ow in
+        let thm = (s2 = r.c12_ir_status) && (dump t2 = dump r.c12_ir_tree) in
+        Printf.sprintf " dialect=%d%d%d" (if okd then 1 else 0) (if same then 1 else 0) (if thm then 1 else 0)
+      end else "" in
+    Printf.sprintf "%s | %s ub=%d%s" m spec (if r.c12_ir_ub then 1 else 0) dialect
   | "get" ->
     let (m, s) = get_case t.(1) (str_field t.(2)) in m ^ " | " ^ s
   | "opt" ->
-    let (tr, st) = c12_read_options (strs_field t.(1)) c12_empty in
-    Printf.sprintf "%s %s | ?" (status_str st) (dump tr)
+    let args = strs_field t.(1) in
+    let (tr, st) = c12_read_options args c12_empty in
+    (* spec: the argument list is -k1 v1 -k2 v2 ... [-k]  (keys non-empty) *)
+    let rec pairs = function
+      | [] -> Some ([], false)
+      | [a] -> (match a with '-' :: _ :: _ -> Some ([], true) | _ -> None)
+      | a :: v :: r -> (match a with
+          | '-' :: (_ :: _ as k) -> (match pairs r with Some (l, d) -> Some ((k, v) :: l, d) | None -> None)
+          | _ -> None) in
+    let spec = match pairs args with
+      | Some (l, dangling) ->
+        let (t2, s2) = c12_set_all l c12_empty in
+        let s2 = if s2 = C12Ok && dangling then C12RangeError else s2 in
+        Printf.sprintf "%s %s" (status_str s2) (dump t2)
+      | None -> "?" in
+    Printf.sprintf "%s %s | %s" (status_str st) (dump tr) spec
   | "nopt" ->
     let kw = strs_field t.(4) in
     let req = min (int_of_string t.(1)) (List.length kw + 1) in
-    let (tr, st) = c12_read_named_options (strs_field t.(5)) (tree_of_predoc t.(6)) kw (nat_of_int req)
-        (t.(2) = "1") (t.(3) = "1") in
-    Printf.sprintf "%s %s | ?" (status_str st) (dump tr)
+    let args = strs_field t.(5) and pre = tree_of_predoc t.(6) in
+    let (tr, st) = c12_read_named_options args pre kw (nat_of_int req) (t.(2) = "1") (t.(3) = "1") in
+    let spec =
+      if t.(3) <> "1" then "?"
+      else if List.for_all c12_plain_arg args then
+        let (t2, s2) = c12_spec_named_positional args kw (nat_of_int req) pre in
+        Printf.sprintf "%s %s" (status_str s2) (dump t2)
+      else
+        let ps = List.map c12_named_pair args in
+        let rec distinct = function [] -> true | x :: r -> not (List.exists (fun y -> c12_eqs x y) r) && distinct r in
+        (* the documented mapping presupposes pairwise different keywords *)
+        if distinct kw && List.for_all (function Some (k, _) -> List.exists (fun x -> c12_eqs x k) kw | None -> false) ps then
+          let (t2, s2) = c12_spec_named_only (List.filter_map (fun x -> x) ps) kw (nat_of_int req) pre in
+          Printf.sprintf "%s %s" (status_str s2) (dump t2)
+        else "?" in
+    Printf.sprintf "%s %s | %s" (status_str st) (dump tr) spec
   | _ -> "UNKNOWN-OP | ?"
 
 let () =
